@@ -192,7 +192,7 @@ def generated(rng) -> list[tuple[Any, Any, str]]:
         makers.append((f"FloatData({v!r})", lambda v=v: b.FloatData(v)))
         for t in fts:
             makers.append((f"FloatAttr({v!r},{t})", lambda v=v, t=t: b.FloatAttr(v, t)))
-    for v in (0, 1, -1, 127, -128, 255, 2 ** 31, -(2 ** 63), 2 ** 64 - 1):
+    for v in (0, 1, -1, -2, 127, -128, 255, 2 ** 31, -(2 ** 63), 2 ** 64 - 1, 2 ** 61 - 1, 2 ** 61 + 4, 5):
         makers.append((f"IntAttr({v})", lambda v=v: b.IntAttr(v)))
         for w in (1, 8, 32, 64):
             def mk(v=v, w=w):
@@ -263,6 +263,58 @@ def generated(rng) -> list[tuple[Any, Any, str]]:
             out.append((Parser(fresh_ctx(), t).parse_attribute(), Parser(fresh_ctx(), t).parse_attribute(), f"parse {t!r}"))
         except Exception:  # noqa: BLE001
             continue
+    return out
+
+
+def late_unregistered_twins() -> list[tuple[Any, Any, str]]:
+    """Unregistered attributes / types parsed early, then again through fresh contexts after several hundred other
+    unregistered names have been requested (any per-name class table has been under pressure by then)."""
+    from xdsl.parser import Parser
+
+    texts = ['#foo.bar<1>', '!foo.t<"x">', '#mydialect.cfg<1, 2>', '!mydialect.ty', '#a.b', '!a.b<i32>']
+    early = []
+    for t in texts:
+        try:
+            early.append((t, Parser(fresh_ctx(), t).parse_attribute()))
+        except Exception:  # noqa: BLE001
+            continue
+    for k in range(300):
+        for t in (f'#filler{k}.attr<{k}>', f'!filler{k}.ty'):
+            try:
+                Parser(fresh_ctx(), t).parse_attribute()
+            except Exception:  # noqa: BLE001
+                pass
+    out = []
+    for t, a in early:
+        try:
+            out.append((a, Parser(fresh_ctx(), t).parse_attribute(), f"parse {t!r} (early / after 600 other unregistered names)"))
+        except Exception:  # noqa: BLE001
+            continue
+    return out
+
+
+def colliding_op_families() -> list[tuple[list[Any], list[str], list[Any]]]:
+    """CSE keys of operations that differ only in a property / attribute whose values have equal Python hashes
+    (hash(-1) == hash(-2), hash(n) == hash(n + 2**61 - 1)): equality must not rest on the hash."""
+    from xdsl.dialects import arith, builtin, test
+    from xdsl.transforms.common_subexpression_elimination import OperationInfo
+
+    M = 2 ** 61 - 1
+    out = []
+    keep = []
+    for vals, ty in (((-1, -2, -1), builtin.i32), ((0, M, 0), builtin.i64), ((5, M + 5, 5), builtin.i64), ((-1, -2, M - 1), builtin.i64)):
+        for mk, label in ((lambda v: arith.ConstantOp(builtin.IntegerAttr(v, ty)), "arith.constant"),
+                          (lambda v: test.TestOp(result_types=[ty], properties={"p": builtin.IntegerAttr(v, ty)}), "test.op property"),
+                          (lambda v: test.TestOp(result_types=[ty], attributes={"a": builtin.IntegerAttr(v, ty)}), "test.op attribute"),
+                          (lambda v: test.TestOp(result_types=[ty], properties={"p": builtin.IntAttr(v)}), "test.op IntAttr property")):
+            try:
+                ops = [mk(v) for v in vals]
+            except Exception:  # noqa: BLE001
+                continue
+            keep.append(ops)
+            vid: dict[int, int] = {}
+            out.append(([OperationInfo(o) for o in ops], [f"{label} {v}" for v in vals], [op_payload(o, vid) for o in ops]))
+    colliding_op_families.keep = keep  # type: ignore[attr-defined]
     return out
 
 
@@ -455,7 +507,7 @@ def run(ctx: Ctx):
     ctx.cov_add("states", 9)
     # 2. families of real attributes
     rng = ctx.rng("fam")
-    gen = generated(rng)
+    gen = generated(rng) + late_unregistered_twins()
     corp = corpus_pairs(ctx, 4000 if q else 60000)
     ctx.log(f"{len(gen)} generated and {len(corp)} distinct corpus attributes (each with an independently built twin)")
     pool = [a for a, _, _ in gen] + [a for a, _, _ in corp[:2000]]
@@ -485,7 +537,7 @@ def run(ctx: Ctx):
             chunk = rng.sample(lst, min(len(lst), 8))
             if len(chunk) >= 2:
                 families.append(([c[0] for c in chunk], [c[1] for c in chunk]))
-    opf = opinfo_families(ctx, ctx.rng("opinfo"), 1500 if q else 20000, subpool)
+    opf = opinfo_families(ctx, ctx.rng("opinfo"), 1500 if q else 20000, subpool) + colliding_op_families()
     ctx.coverage["operationinfo_families"] = len(opf)
     cases, kept = [], []
     skipped = 0
